@@ -60,6 +60,10 @@ def SOME(x):
 NONE = ADT('std::option::Option', 0, 'None', [])
 
 
+# std functions whose meaning is selected by a type parameter: the parameter is kept in the application term
+TYPE_DIRECTED = {'parse', 'into', 'from', 'try_into', 'try_from', 'default', 'collect', 'sum', 'product', 'from_str'}
+
+
 class Budget(Exception):
     pass
 
@@ -67,6 +71,12 @@ class Budget(Exception):
 class Fork:
     def __init__(self, values):
         self.values = list(values)
+
+
+class Stop:
+    """returned by a hook to end the current path at this call (recorded as (('stop', value), effects))"""
+    def __init__(self, value=None):
+        self.value = value
 
 
 def fully_known(v):
@@ -117,9 +127,9 @@ class Interp:
     # -- values of places / operands
     def place_val(self, env, pl):
         v = env.get(pl['l'], UNK)
-        return self.project(v, pl['p'])
+        return self.project(v, pl['p'], env)
 
-    def project(self, v, projs):
+    def project(self, v, projs, env=None):
         for p in projs:
             if p == 'deref':
                 continue
@@ -148,7 +158,16 @@ class Interp:
                     v = UNK
                 continue
             if isinstance(p, dict) and 'index' in p:
-                v = ('proj', v, ('[_]',)) if v[0] in ('sym', 'app') else UNK
+                iv = env.get(p['index'], UNK) if env is not None else UNK
+                tag = '[%s]' % (iv[1],) if iv[0] == 'c' else '[_]'
+                if v[0] == 'tuple' and iv[0] == 'c' and isinstance(iv[1], int) and iv[1] < len(v[1]):
+                    v = v[1][iv[1]]
+                elif v[0] in ('sym', 'app'):
+                    v = ('proj', v, (tag,))
+                elif v[0] == 'proj':
+                    v = ('proj', v[1], v[2] + (tag,))
+                else:
+                    v = UNK
                 continue
             v = UNK
         return v
@@ -195,6 +214,8 @@ class Interp:
             v = self.place_val(env, rv['pl'])
             if v[0] == 'adt':
                 return C(v[2])
+            if v[0] in ('sym', 'app', 'proj'):
+                return ('app', 'discriminant', (v,))
             return UNK
         if k == 'aggregate':
             ops = [self.op_val(fn, env, o) for o in rv['ops']]
@@ -294,9 +315,15 @@ class Interp:
             target = self.prog.by_path.get(r)
         if target is None and c.get('local'):
             target = self.prog.by_path.get(d)
+        if target is not None and target.j.get('derived') and path_endswith(target.j.get('impl_trait') or '', 'clone::Clone') and len(args) == 1:
+            # derived Clone is a structural copy
+            return args[0], args
         if target is not None and depth < self.max_depth and target.kind != 'Closure' and not (self.opaque and self.opaque(target)):
             return ('paths', self.paths(target, args, depth + 1)), args
-        return ('app', r or d, tuple(args)), args
+        nm = r or d
+        if name in TYPE_DIRECTED and c.get('args'):
+            nm = '%s::<%s>' % (nm, c['args'][-1])
+        return ('app', nm, tuple(args)), args
 
     # -- function evaluation: all paths
     def paths(self, fn, args, depth=0):
@@ -371,6 +398,9 @@ class Interp:
                                 env2[t['dest']['l']] = val
                             self._run(fn, t['target'], env2, depth, out, effects + (eff,) + e2, dict(edges))
                         return
+                elif isinstance(res, Stop):
+                    out.append((('stop', res.value), effects + (eff,)))
+                    return
                 elif isinstance(res, Fork):
                     for val in res.values:
                         env2 = dict(env)
